@@ -19,6 +19,7 @@ import (
 	"path/filepath"
 	"sort"
 	"strings"
+	"sync"
 	"time"
 
 	"github.com/benhoyt/goawk/parser"
@@ -110,7 +111,7 @@ func main() {
 		}
 		// the largest legal counts allocate a million fields per use: fewer of them, one input line
 		for hi, h := range hostileBig {
-			if !thorough && (ti > 12 || hi > 0) {
+			if !thorough && (ti != 8 || hi > 0) {
 				continue
 			}
 			addCase(api("template-big", subst(t, h, hostileBig[(hi+1)%len(hostileBig)]), "a b c\n"))
@@ -205,6 +206,17 @@ func main() {
 		addCase(c)
 	}
 
+	// the exact boundary: maxFieldIndex itself is legal (one run: it allocates a million fields)
+	{
+		src := `BEGIN { $(1000000) = "x"; print NF }`
+		if thorough {
+			src = `BEGIN { $(1000000) = "x"; print NF; NF = 1000000; $(1000000)++ }`
+		}
+		c := api("oversize-boundary", src, "")
+		c.Expect, c.ExpectWhy = "ok", "field number / NF equal to maxFieldIndex=1000000 is accepted"
+		addCase(c)
+	}
+
 	// ---- 6. oversized field numbers / NF / ARGC are errors ----
 	for _, big := range oversize {
 		for _, t := range []string{`{ $(<H>) = "x" }`, `BEGIN { $(<H>) = "x" }`, `{ NF = <H> }`, `BEGIN { NF = <H> }`, `BEGIN { ARGC = <H> }`, `{ $(<H>)++ }`, `{ $(<H>) += 1 }`,
@@ -272,14 +284,36 @@ func main() {
 	}
 
 	// =================== dynamic search ===================
+	// child processes are independent: run the CLI cases on a small worker pool, judge in order
+	outs := make([]Outcome, len(cases))
+	var wg sync.WaitGroup
+	sem := make(chan struct{}, 8)
+	for i, c := range cases {
+		if c.Kind != "cli" {
+			continue
+		}
+		wg.Add(1)
+		go func(i int, c *Case) {
+			defer wg.Done()
+			sem <- struct{}{}
+			outs[i] = runCLI(c)
+			<-sem
+		}(i, c)
+	}
 	spent := map[string]time.Duration{}
-	for _, c := range cases {
+	for i, c := range cases {
+		if c.Kind == "cli" {
+			continue
+		}
+		t0 := time.Now()
+		outs[i] = runAPI(c)
+		spent[c.Family] += time.Since(t0)
+	}
+	wg.Wait()
+	for i, c := range cases {
 		rep.SearchEvals++
 		rep.Count("run:" + c.Family)
-		t0 := time.Now()
-		out := run(c)
-		spent[c.Family] += time.Since(t0)
-		judge(rep, c, out)
+		judge(rep, c, outs[i])
 	}
 	if os.Getenv("C02_DEBUG") != "" {
 		for k, v := range spent {
@@ -298,7 +332,7 @@ func judge(rep *hx.Report, c *Case, out Outcome) {
 	if out.Panic != "" {
 		oracle := "no-panic"
 		if c.Kind == "cli" {
-			oracle = "no-panic-cli"
+			oracle = "no-panic"
 		}
 		rep.Fail(hx.Failure{Class: out.Class(), Oracle: oracle, Detail: c.Detail(out)})
 		return
